@@ -47,7 +47,7 @@ def other_file() -> bytes:
     return _OTHER
 
 
-def crash_states(old: dict, new: dict, first: dict | None = None):
+def crash_states(old: dict, new: dict, first: dict | None = None, loaded: str | None = None):
     """save(old) completes, then save(new); yield (class, description, files, ops) for every crash point of
     that last save. With `first`: an earlier process left `first` in the file, and ONE Persistence object over
     one registry dict loads it, saves `old` and then saves `new`, as a running gateway does (state or side
@@ -55,7 +55,26 @@ def crash_states(old: dict, new: dict, first: dict | None = None):
     from aiomysensors.persistence import Persistence
 
     vfs = fsshim.VFS()
-    if first is None:
+    if loaded is not None:
+        # an earlier process (this library, or pymysensors with its own layout) left `old` in the file; this
+        # process loads it and the save that dies is the FIRST save of the session
+        import copy
+        import json
+
+        from . import c13
+
+        kind, val, _ = pers.save_nodes(copy.deepcopy(old), vfs)
+        assert kind == "ok", val
+        if loaded == "legacy":
+            _, legacy = c13.legacy_of(json.loads(bytes(vfs.files[pers.PATH])))
+            vfs.files[pers.PATH] = bytearray(json.dumps(legacy, indent=2, sort_keys=True).encode())
+        nodes = {}
+        saver = Persistence(nodes, pers.PATH)
+        kind, val = pers.run(saver.load, vfs)
+        assert kind == "ok", val
+        nodes.clear()
+        nodes.update(copy.deepcopy(new))
+    elif first is None:
         kind, val, _ = pers.save_nodes(old, vfs)
         assert kind == "ok", val
         saver = None
@@ -140,17 +159,25 @@ def classify(files: dict, old_c, new_c, empty_c) -> str | None:
 def job(j):
     oi, ni = j[0], j[1]
     fi = j[2] if len(j) > 2 else None
+    loaded = fi if isinstance(fi, str) else None
+    if loaded:
+        fi = None
     old, new = registry(oi), registry(ni)
     first = registry(fi) if fi is not None else None
     old_c, new_c, empty_c = canon_nodes(old), canon_nodes(new), canon_nodes({})
+    if loaded == "legacy":
+        # the legacy layout has no sleeping flag: the old registry is what load makes of the file
+        for n in old.values():
+            n.sleeping = False
+        old_c = canon_nodes(old)
     viols = []
     n = 0
     shape = None
     classes = set()
     try:
-        states = list(crash_states(old, new, first))
+        states = list(crash_states(old, new, first, loaded))
     except SaveFailed as err:
-        return 1, [(f"C15|save-failed-without-fault", f"old registry #{oi}, new registry #{ni}: the save itself failed on a healthy file system: {err}", {"old": oi, "new": ni, "first": fi})], None, []
+        return 1, [(f"C15|save-failed-without-fault", f"old registry #{oi}, new registry #{ni}: the save itself failed on a healthy file system: {err}", {"old": oi, "new": ni, "first": loaded or fi})], None, []
     for cls, desc, files, ops in states:
         n += 1
         classes.add(cls)
@@ -158,7 +185,9 @@ def job(j):
         res = classify(files, old_c, new_c, empty_c)
         if res is not None:
             hist = f"file held registry #{fi} when the session started (loaded), then " if fi is not None else ""
-            viols.append((f"C15|{cls}|{res}", f"{hist}old registry #{oi}, new registry #{ni}: crash {desc}: the file {res.replace('-', ' ')}", {"old": oi, "new": ni, "first": fi}))
+            if loaded:
+                hist = f"the file ({loaded} layout) was loaded by this session and this is its first save: "
+            viols.append((f"C15|{cls}|{res}", f"{hist}old registry #{oi}, new registry #{ni}: crash {desc}: the file {res.replace('-', ' ')}", {"old": oi, "new": ni, "first": loaded or fi}))
     return n, viols, shape, sorted(classes)
 
 
@@ -167,13 +196,16 @@ def run(ctx: core.Ctx) -> core.Report:
     jobs = [(o, n) for o in regs for n in regs]
     # histories: one Persistence object saves three registries in a row (first, old, new)
     jobs += [(o, n, f) for f in regs for o in regs for n in regs if not (f == o == n)]
+    # the file was written by an earlier process (native or legacy pymysensors layout), is loaded, and the
+    # first save of the session dies
+    jobs += [(o, n, lay) for lay in ("native", "legacy") for o in regs for n in regs]
     res = core.pmap(job, jobs, ctx.workers, chunksize=1)
     total = sum(r[0] for r in res)
     viols = [core.Violation(k, w, rep) for r in res for k, w, rep in r[1]]
     cov = {
         "evaluations": total,
         "distinct_nontrivial": total - len(jobs),
-        "rule": "for every ordered pair (old, new) of registries, and for every triple (first, old, new) saved in a row by ONE Persistence object: the earlier saves complete, then save(new) runs on the in-memory file system; crash states = the file system after every prefix of the raw operation log that CPython's real TextIOWrapper/BufferedWriter stack produced, and inside every raw write after every byte (large writes: first/last 64 bytes + every 97th); each state is loaded by the real Persistence.load; non-trivial = any state other than 'before the first operation'",
+        "rule": "for every ordered pair (old, new) of registries, and for every triple (first, old, new) saved in a row by ONE Persistence object, and for every pair with the old registry loaded from a file in native / legacy layout and the dying save the first of the session: the earlier saves complete, then save(new) runs on the in-memory file system; crash states = the file system after every prefix of the raw operation log that CPython's real TextIOWrapper/BufferedWriter stack produced, and inside every raw write after every byte (large writes: first/last 64 bytes + every 97th); each state is loaded by the real Persistence.load; non-trivial = any state other than 'before the first operation'",
         "exhaustive": True,
         "bounds": {"registries": regs, "pairs": len(jobs)},
         "raw_operation_shape_of_a_save": res[-1][2],
